@@ -1,28 +1,59 @@
 /-
-  C10 — obligations tying the REGENERATED lock facts (Generated/C10.lean, rewritten from the six process sources and
-  tss/coordinator.go on every run) to the table the theorems of Props/C10.lean are about. Moving, adding or dropping
-  a LockKeyshare / UnlockKeyshare call (or making an unlock non-deferred before an early return) changes the
-  generated table and this stops checking.
+  C10 — obligations about the REGENERATED lock facts (Generated/C10.lean, rewritten from the six process sources, the
+  event handlers and tss/coordinator.go on every run).
+
+  Every fact is an `Option`: `none` = the translator could not locate the anchor, or found it in a shape it does not
+  understand (lock call inside a closure / loop, Run without a visible Wait, handler body moved into a helper …); the
+  obligation is then vacuous, bin/check prints T-TIE-UNAVAILABLE and the correspondence ops (cell / ctor / seq / full /
+  handler) carry the property alone. A fact that IS located must satisfy its obligation, and the obligations are
+  SEMANTIC: they are about the paths the source has (enumerated over if / else / return by harness/sygx/c10.go), not
+  about its spelling - a deferred unlock and an unlock written out on every exit are the same fact; one missing on a
+  single exit is not.
 -/
 import SygmaModel.Model.C10
 import SygmaModel.Generated.C10
 namespace Sygma.C10
 
-def evName : Ev → String
-  | .L => "L" | .U => "U" | .dU => "dU" | .G => "G" | .W => "W" | .ret => "ret" | .rete => "rete" | .fin => "end" | .bad => "?"
+def evOf : String → Ev
+  | "L" => .L | "U" => .U | "dU" => .dU | "G" => .G | "W" => .W | _ => .bad
 
-def kindName : Kind → String
-  | .ekeygen => "ekeygen" | .fkeygen => "fkeygen" | .eresharing => "eresharing" | .fresharing => "fresharing"
-  | .esigning => "esigning" | .fsigning => "fsigning"
+def pathsWith (exit : String) (ps : List (String × List String)) : List (List Ev) :=
+  (ps.filter (·.1 == exit)).map (·.2.map evOf)
 
-def tableStrings : List (String × List String × List String × List String) :=
-  Kind.all.map fun k => (kindName k, (table k).ctor.map evName, (table k).run.map evName, (table k).stop.map evName)
+def psetOf (t : List (String × List String) × List (String × List String) × List (String × List String)) : PSet :=
+  ⟨pathsWith "full" t.1, pathsWith "ctorerr" t.1, pathsWith "early" t.2.1, pathsWith "full" t.2.1, pathsWith "full" t.2.2⟩
 
-/-- the sources' lock events are the model's table -/
-theorem gen_table : Generated.C10.facts = tableStrings := by decide
+def balancedB (d : Delta) : Bool := decide (Balanced d)
+
+/-- key generation and resharing must hold the lock while the protocol runs -/
+def exclusiveName (n : String) : Bool := ["ekeygen", "fkeygen", "eresharing", "fresharing"].contains n
+
+/-- everything Props/C10 proves of the model's table, demanded of the paths the source has:
+    every outcome on every combination of paths balanced (table_balanced), a second Run (retried_balanced), the lock
+    held by somebody else at the start (contended_balanced), every constructor error exit (constructor_failure_balanced),
+    the lock state when the protocol runs and no release before Run ends (runs_under_lock, no_release_while_running) -/
+def procOK (name : String) (ps : PSet) : Bool :=
+  (Outcome.all.all fun o => (sessionFromP true ps o 0).all balancedB) &&
+  (retriedFromP ps 0).all balancedB &&
+  (Outcome.all.all fun o => (contendedFromP ps o).all fun c => balancedB c.d && !c.hHolds && decide (c.waited ≤ 1)) &&
+  (ps.ctorErr.all fun p => balancedB (activation p (Delta.start 0))) &&
+  ((sessionFromP true ps .ran 0).all fun d => d.runHeld == some (if exclusiveName name then 1 else 0)) &&
+  (!exclusiveName name || ps.runFull.all noReleaseAfterW) &&
+  !ps.runFull.isEmpty && !ps.ctorFull.isEmpty && !ps.stop.isEmpty
+
+/-- **the sources' lock placement satisfies the property**: for every process kind whose three functions were located,
+    all of the above holds of the paths they actually have -/
+theorem gen_procs_balanced :
+    (Generated.C10.procs.all fun e => match e.2 with
+      | some t => procOK e.1 (psetOf t)
+      | none => true) = true := by decide
 
 /-- the coordinator stops the processes both when it refuses a duplicate and when a session exits -/
-theorem gen_coordinator_stops : Generated.C10.refusalStops = true ∧ Generated.C10.deferStops = true := by decide
+theorem gen_coordinator_stops :
+    (∀ b, Generated.C10.refusalStops = some b → b = true) ∧ (∀ b, Generated.C10.deferStops = some b → b = true) := by
+  constructor <;> intro b hb
+  · unfold Generated.C10.refusalStops at hb; cases hb; rfl
+  · unfold Generated.C10.deferStops at hb; cases hb; rfl
 
 /-- a handler body, from the process constructor on: Execute follows the constructor directly (no return in between,
     which would leave a constructor-held lock behind) and nothing stops the process afterwards (Execute already has) -/
@@ -30,9 +61,10 @@ def handlerShape : List String → Bool
   | "new" :: "execute" :: rest => rest.all (· == "ret")
   | _ => false
 
-/-- the three production entry points are "constructor, Execute, return": what `handlerFrom false` models -/
+/-- the production entry points that were located are "constructor, Execute, then only returns": what `handlerFrom false` models -/
 theorem gen_handlers :
-    Generated.C10.handlers.map (·.1) = ["KeygenEventHandler", "FrostKeygenEventHandler", "RefreshEventHandler"] ∧
-    (Generated.C10.handlers.all fun h => handlerShape h.2) = true := by decide
+    (Generated.C10.handlers.all fun h => match h.2 with
+      | some evs => handlerShape evs
+      | none => true) = true := by decide
 
 end Sygma.C10
